@@ -81,7 +81,14 @@ def _norm(out):
         stage = None
         if out["exc"] == "TypeCheckError":
             stage = "return" if "return value" in out.get("msg", "")[:80] else "parameters"
-        return {"exc": out["exc"], "stage": stage, "body_runs": out.get("body_runs")}
+        msg = None
+        if out["exc"] != "TypeCheckError":
+            import re
+
+            # exact behaviour: same exception text, with the callable's own (twin-specific) name masked
+            msg = re.sub(r"\b[\w.]*[DP]\d+_\d+(\.m|\.__init__)?\(\)", "<callable>()", out.get("msg", ""))
+            msg = re.sub(r"\b__init__\(\)", "<callable>()", msg)
+        return {"exc": out["exc"], "stage": stage, "body_runs": out.get("body_runs"), "msg": msg}
     if isinstance(out, dict):
         return {"ret": True, "body_runs": out.get("body_runs")}
     return out
@@ -104,9 +111,14 @@ def gen(seed, tier="quick"):
         ntc = None
         if style in ("new", "none") and kind in ("fn", "method") and r.random() < 0.25:
             ntc = r.choice(("above", "below"))
+        if style in ("new", "none") and kind == "fn" and r.random() < 0.12:
+            kind = "inject"
         spec = {"style": style, "tc": r.choice(("tg", "tg", "bt", "min")), "kind": kind, "params": params,
                 "ret": r.choice(arrs) if kind != "dc" and r.random() < 0.6 else None, "ntc": ntc,
                 "lazy": r.random() < 0.3}
+        if kind == "inject":
+            spec["inject"] = {"t": "np", "s": [2] * len(g.anns[params[0][1]]["toks"]), "d": "float32"}
+            spec["ret"] = None
         fns[f"D{i}"] = spec
         fns[f"P{i}"] = dict(spec, style="tconly" if style == "old" else "plain", ntc=None, lazy=False)
         pairs.append(i)
@@ -131,11 +143,25 @@ def gen(seed, tier="quick"):
             else:
                 args[0]["s"] = args[0]["s"] + [1]
                 argclass = "bad-param"
+        extra = {}
+        if f["kind"] == "inject":
+            args[0] = {"t": "omit"}  # supplied by the callable itself
+            argclass = "inject"
+        elif r.random() < 0.1 and flip is None:
+            # a call that does not bind: missing argument / one positional too many / unknown keyword
+            how = r.choice(("missing", "extra-pos", "extra-kw"))
+            if how == "missing":
+                args[-1] = {"t": "omit"}
+            elif how == "extra-pos":
+                args.append({"t": "int", "v": 7})
+            else:
+                extra = {"extra_kw": ["zz"]}
+            argclass = "arity"
         b = [dict(o) for o in body]
         if flip is not None:
             b.append({"op": "toggle", "item": "jaxtyping_disable", "value": flip, "_inbody": True})
-        ops = [{"op": "call", "fn": f"D{i}", "args": args, "kw": r.choice((0, 2)), "body": b, "ret": ret, "exit": "ret",
-                "_argclass": argclass, "_flip": flip}]
+        ops = [dict({"op": "call", "fn": f"D{i}", "args": args, "kw": r.choice((0, 2)), "body": b, "ret": ret, "exit": "ret",
+                     "_argclass": argclass, "_flip": flip}, **extra)]
         if twin and flip is None:
             ops.append({"op": "call", "fn": f"P{i}", "_twin_of": True})
         return ops
@@ -295,6 +321,11 @@ class Observer:
                                                "got": _norm(out), "flavour": flavour}, style=f["style"], dir="disabled-at-entry")
             return
         self.last_d = None
+        if op.get("_argclass") in ("arity", "inject"):
+            # checking enabled and the argument list does not bind to the advertised signature: only "no silent success with a
+            # skipped body" is demanded (which TypeError text is shown is not part of the property)
+            self.stats.inc("call:enabled-nonbinding")
+            return
         # enabled: checked, fresh context
         view = self._body_view(run, path)
         got_exc = out.get("exc") if isinstance(out, dict) else None
